@@ -625,8 +625,8 @@ class Deque(Sequence):
         if steps >= 0:
             steps %= len_self
 
-            for _ in range(steps):
-                with self._cache.transact(retry=True):
+            with self._cache.transact(retry=True):
+                for _ in range(steps):
                     try:
                         value = self._pop()
                     except IndexError:
@@ -637,8 +637,8 @@ class Deque(Sequence):
             steps *= -1
             steps %= len_self
 
-            for _ in range(steps):
-                with self._cache.transact(retry=True):
+            with self._cache.transact(retry=True):
+                for _ in range(steps):
                     try:
                         value = self._popleft()
                     except IndexError:
